@@ -19,6 +19,7 @@ import (
 	"math/rand"
 	"os"
 	"strings"
+	"time"
 
 	dh "github.com/hashicorp/consul/verifharness/internal/discoh"
 )
@@ -70,23 +71,36 @@ func (r *runner) step(c *dh.Cmd, silent bool) (accepted bool) {
 	var res interface{}
 	hung := false
 	switch c.T {
-	case "write":
-		if c.E == nil {
+	case "write", "delete":
+		if c.T == "write" && c.E == nil {
 			fatal("write without entry")
 		}
-		wr, err := r.h.Write(c)
-		if err != nil {
-			fatal("write %+v: %v", c.E, err)
+		// the write-time validation compiles chains inside the store transaction: same watchdog
+		type out struct {
+			wr  dh.WriteRes
+			err error
 		}
-		res = wr
-		accepted = wr.Class == "ok"
-	case "delete":
-		wr, err := r.h.Delete(c)
-		if err != nil {
-			fatal("delete: %v", err)
+		done := make(chan out, 1)
+		go func() {
+			var o out
+			if c.T == "write" {
+				o.wr, o.err = r.h.Write(c)
+			} else {
+				o.wr, o.err = r.h.Delete(c)
+			}
+			done <- o
+		}()
+		select {
+		case o := <-done:
+			if o.err != nil {
+				fatal("%s %+v: %v", c.T, c, o.err)
+			}
+			res = o.wr
+			accepted = o.wr.Class == "ok"
+		case <-time.After(5 * dh.Watchdog):
+			res = dh.WriteRes{Class: "hung"}
+			hung = true
 		}
-		res = wr
-		accepted = wr.Class == "ok"
 	case "compile":
 		if c.Ctx == nil {
 			c.Ctx = &dh.Ctx{Dc: "dc1"}
@@ -101,9 +115,11 @@ func (r *runner) step(c *dh.Cmd, silent bool) (accepted bool) {
 		fatal("unknown command %q", c.T)
 	}
 	if !silent || hung {
-		post, err := r.h.State()
-		if err != nil {
-			fatal("state: %v", err)
+		post := pre
+		if !(hung && c.T != "compile") { // a hung write still holds the write transaction
+			if post, err = r.h.State(); err != nil {
+				fatal("state: %v", err)
+			}
 		}
 		r.rec.emit(event{H: r.hi, K: r.k, Cmd: c, Pre: pre, Post: post, Res: res})
 	}
